@@ -192,9 +192,11 @@ impl Session {
     /// Lines starting with `#` are comments; `#!` lines (violation summary
     /// written by the driver) are comments too.
     pub fn parse(text: &str) -> Result<Session, String> {
+        // `#!` lines (violation summary written by the driver) and blank
+        // lines are dropped; `# ` lines are kept as the run's note
         let mut lines = text.lines().filter(|l| {
             let t = l.trim();
-            !t.is_empty() && !t.starts_with('#')
+            !t.is_empty() && !t.starts_with("#!")
         });
         match lines.next() {
             Some(h) if h.trim() == HEADER => {}
@@ -210,6 +212,15 @@ impl Session {
             let t = l.trim();
             if t == "run" {
                 plans.push(Plan::default());
+                continue;
+            }
+            if let Some(c) = t.strip_prefix('#') {
+                if let Some(cur) = plans.last_mut() {
+                    if !cur.note.is_empty() {
+                        cur.note.push('\n');
+                    }
+                    cur.note.push_str(c.trim());
+                }
                 continue;
             }
             let cur = plans
